@@ -28,11 +28,21 @@ Definition close_opt (m : option Q) (o : option Q) : bool :=
 Record obs := { o_raw : list Q; o_mean : Q; o_std : Q; o_eom : Q; o_wmean : option Q; o_perr : option Q;
                 o_value : Q; o_error : Q }.
 
+(** mean-like numbers may cancel to (nearly) 0: absolute tolerance 1e-9 x the mean magnitude of the readings *)
+Definition mean_abs (xs : list Q) : Q := qsum (map Qabs xs) / qlen xs.
+Definition close_mean (xs : list Q) (a b : Q) : bool := Qclose tol (tol * mean_abs xs) a b.
+Definition close_mean_opt (xs : list Q) (m o : option Q) : bool :=
+  match m, o with
+  | Some x, Some y => close_mean xs x y
+  | None, None => true
+  | _, _ => false
+  end.
+
 Definition check_obs (r : rmv) (o : obs) : bool :=
   list_eqb Qeq_bool (r_xs r) (o_raw o)
-  && close (r_mean r) (o_mean o) && close_sqrt (r_std_sq r) (o_std o) && close_sqrt (r_eom_sq r) (o_eom o)
-  && close_opt (r_wmean r) (o_wmean o) && close_opt_sqrt (r_perr_sq r) (o_perr o)
-  && close (r_value r) (o_value o) && close_sqrt (r_err_sq r) (o_error o).
+  && close_mean (r_xs r) (r_mean r) (o_mean o) && close_sqrt (r_std_sq r) (o_std o) && close_sqrt (r_eom_sq r) (o_eom o)
+  && close_mean_opt (r_xs r) (r_wmean r) (o_wmean o) && close_opt_sqrt (r_perr_sq r) (o_perr o)
+  && close_mean (r_xs r) (r_value r) (o_value o) && close_sqrt (r_err_sq r) (o_error o).
 
 (** a selector history: after each use_* call (selector, warned, what is read, and the value and
     uncertainty of k * a + c computed by the derivative method afterwards) *)
@@ -45,7 +55,7 @@ Fixpoint check_sels (k c : Q) (r : rmv) (h : list (sel * bool * obs * (Q * Q))) 
   | (o, warned, ob, (dv, de)) :: h' =>
       let '(r1, w) := sel_step r o in
       Bool.eqb w warned && check_obs r1 ob
-      && Qclose tol (tol * (Qabs (k * r_value r1) + Qabs c)) (lin_value k c r1) dv && close_sqrt (lin_err_sq k r1) de
+      && Qclose tol (tol * (Qabs k * mean_abs (r_xs r1) + Qabs (k * r_value r1) + Qabs c)) (lin_value k c r1) dv && close_sqrt (lin_err_sq k r1) de
       && check_sels k c r1 h'
   end.
 
